@@ -11,7 +11,11 @@
 // (so: a crash between the pending and the confirm write, between block delete and affinity
 // delete, a lost reply on the block create, ...), random multi-fault runs, free-running runs under
 // the race detector.  Half of the cases have two phases separated by a 3-minute shift of the
-// stored AffinityClaimTime stamps, which makes empty blocks of other hosts reclaimable.
+// stored AffinityClaimTime stamps, which makes empty blocks of other hosts reclaimable.  More than
+// half of the affinity releases target ANOTHER host's affinities (as the GC controller or an
+// operator would), and every run ends with a fault-free epilogue in which a fresh client claims
+// every block of every pool, so that a latent inconsistency (e.g. a confirmed affinity whose
+// block is gone) meets a new owner.
 //
 // Oracle, evaluated under the store lock at EVERY committed write of a block or block affinity:
 //  a. per block CIDR at most one BlockAffinity object is in state "confirmed";
@@ -51,7 +55,7 @@ import (
 
 func genCase(r *rand.Rand, thorough bool) *ipamkit.ConcCase {
 	hosts := []string{"host-a", "host-b", "host-c"}[:2+r.Intn(2)]
-	cc := &ipamkit.ConcCase{SharedPct: 5, Shift: 3 * time.Minute}
+	cc := &ipamkit.ConcCase{SharedPct: 5, Shift: 3 * time.Minute, OtherPct: 55, Epilogue: true}
 	for _, h := range hosts {
 		cc.Spec.Nodes = append(cc.Spec.Nodes, ipamkit.NodeSpec{Name: h, Labels: map[string]string{"kubernetes.io/hostname": h}})
 	}
@@ -77,8 +81,28 @@ func genCase(r *rand.Rand, thorough bool) *ipamkit.ConcCase {
 	}
 	cc.Phases = 1 + r.Intn(2)
 	cc.Weights = ipamkit.Weights{
-		ipamkit.KAutoAssign: 34, ipamkit.KClaimAffinity: 16, ipamkit.KReleaseAffinity: 10, ipamkit.KReleaseHostAffinities: 10,
-		ipamkit.KAssignIP: 8, ipamkit.KReleaseIPs: 8, ipamkit.KReleaseByHandle: 5, ipamkit.KReleasePoolAffinities: 5, ipamkit.KRemoveIPAMHost: 4,
+		ipamkit.KAutoAssign: 34, ipamkit.KClaimAffinity: 14, ipamkit.KReleaseAffinity: 13, ipamkit.KReleaseHostAffinities: 12,
+		ipamkit.KAssignIP: 8, ipamkit.KReleaseIPs: 6, ipamkit.KReleaseByHandle: 4, ipamkit.KReleasePoolAffinities: 5, ipamkit.KRemoveIPAMHost: 4,
+	}
+	if r.Intn(2) == 0 {
+		// "Duel" flavour: two hosts, two blocks per family, and scripts that are mostly one host
+		// allocating while the other releases / re-claims the same blocks.
+		hosts = hosts[:2]
+		cc.Spec.Nodes = cc.Spec.Nodes[:2]
+		cc.Spec.Pools[0].CIDR, cc.Spec.Pools[1].CIDR = "10.22.0.0/29", "fd00:22::/125"
+		if r.Intn(3) != 0 { // one single block per family: every call meets every other call
+			cc.Spec.Pools[0].CIDR, cc.Spec.Pools[1].CIDR = "10.22.0.0/30", "fd00:22::/126"
+		}
+		cc.ClientHosts = cc.ClientHosts[:0]
+		for i := 0; i < 2+r.Intn(2); i++ {
+			cc.ClientHosts = append(cc.ClientHosts, hosts[i%2])
+		}
+		cc.OtherPct = 80
+		cc.NOps = 3 + r.Intn(2)
+		cc.Weights = ipamkit.Weights{
+			ipamkit.KAutoAssign: 44, ipamkit.KReleaseAffinity: 26, ipamkit.KReleaseHostAffinities: 14, ipamkit.KClaimAffinity: 10,
+			ipamkit.KReleasePoolAffinities: 4, ipamkit.KReleaseIPs: 2,
+		}
 	}
 	return cc
 }
@@ -109,9 +133,9 @@ func main() {
 		},
 		Cases: func(tier string) int {
 			if tier == "thorough" {
-				return 1200
+				return 1000
 			}
-			return 56
+			return 40
 		},
 		Setup: func(tier string) error {
 			logrus.SetLevel(logrus.PanicLevel)
